@@ -44,6 +44,16 @@ func compileKey(msg string) string {
 	return first
 }
 
+// inputClass names the known-finding class a member belongs to by construction ("" = none).
+func inputClass(m c01Member) string {
+	for _, l := range m.Labels {
+		if strings.HasPrefix(l, "feature:alias:equals-template-import:") {
+			return "alias-equals-template-import:" + strings.TrimPrefix(l, "feature:alias:equals-template-import:")
+		}
+	}
+	return ""
+}
+
 // memberSpec renders the member's files.
 func memberSpec(m c01Member) (Spec, cfg.Config, error) {
 	var s Spec
@@ -133,6 +143,8 @@ func c01EvalBatch(t tb, c c01Case) int {
 			one := c01Case{Members: []c01Member{it.m}}
 			c := it.cont
 			switch {
+			case c.CompileErr != "" && inputClass(it.m) != "":
+				violation(t, inputClass(it.m), "generated code does not compile: "+oneLine(c.CompileErr), one)
 			case c.CompileErr != "":
 				violation(t, "compile:"+compileKey(c.CompileErr), "generated code does not compile: "+oneLine(c.CompileErr), one)
 			case c.Crashed != "":
@@ -290,6 +302,15 @@ func features() []feature {
 		}),
 		simple("arg:gontainer", func(s *cfg.Service, c *cfg.Config, k int) { s.Args = []cfg.Val{cfg.Str("$gontainer")} }),
 	}
+	for _, a := range []string{"fmt", "os", "errors", "context", "reflect", "strconv", "github.com"} {
+		a := a
+		fs = append(fs, feature{"alias:equals-template-import:" + a, func(c *cfg.Config, k int) {
+			c.Meta.Imports = append(c.Meta.Imports, cfg.KV{K: a, V: "fx/libx"})
+			c.Params = append(c.Params, cfg.Param{Name: fmt.Sprintf("p%d", k), Val: cfg.Str(`%env("VERIF_UNSET", "d")%:%envInt("VERIF_UNSET", 1)%`)})
+			addSvc(c, cfg.Service{Name: n(k), Ctor: sp(a + ".NewObj"), Getter: gt(k), Type: sp("*" + a + ".Obj")})
+			addSvc(c, cfg.Service{Name: n(k) + "t", Todo: bp(true)})
+		}})
+	}
 	return fs
 }
 
@@ -362,6 +383,10 @@ func TestC01(t *testing.T) {
 				continue
 			}
 			if (i*131+j*17+ev.Seed())%pairEvery != 0 {
+				continue
+			}
+			if strings.HasPrefix(fs[i].name, "alias:equals-template-import:") || strings.HasPrefix(fs[j].name, "alias:equals-template-import:") {
+				col.Exclude("pair-with-known-finding-feature")
 				continue
 			}
 			members = append(members, latticeMember(fs, []int{i, j}, (i+j)%3 == 0, (i+j)%2 == 0))
